@@ -47,6 +47,7 @@ class ResponseHandler(BaseProtocol, DataQueue[tuple[RawResponseMessage, StreamRe
 
         self._timer = None
         self._tail = b""
+        self._payload_parser_ended = False
 
         self._read_timeout: float | None = None
         self._read_timeout_handle: asyncio.TimerHandle | None = None
@@ -237,6 +238,7 @@ class ResponseHandler(BaseProtocol, DataQueue[tuple[RawResponseMessage, StreamRe
     ) -> None:
         self._payload = payload
         self._payload_parser = parser
+        self._payload_parser_ended = False
         self._data_received_cb = data_received_cb
 
         self._drop_timeout()
@@ -335,6 +337,7 @@ class ResponseHandler(BaseProtocol, DataQueue[tuple[RawResponseMessage, StreamRe
             if eof:
                 self._payload = None
                 self._payload_parser = None
+                self._payload_parser_ended = True
 
                 if tail:
                     self.data_received(tail)
@@ -342,6 +345,10 @@ class ResponseHandler(BaseProtocol, DataQueue[tuple[RawResponseMessage, StreamRe
 
         if self._upgraded or self._parser is None:
             # i.e. websocket connection, websocket parser is not set yet
+            if self._payload_parser_ended:
+                # ... or is gone already (close frame, protocol error): what
+                # the peer still sends has no reader, do not pile it up
+                return
             self._tail += data
             return
 
